@@ -240,6 +240,8 @@ class FieldData:
     if value is None:
       if fieldname in self._data:
         self._data.pop(fieldname)
+        # (as delete() does) the tag is removed together with its datatype
+        self._datatype.pop(fieldname, None)
     else:
       self._data[fieldname] = value
     if renaming_connected:
